@@ -483,10 +483,13 @@ func vh_E2E_chunks() {
 	a, b := vNondetInt("a"), vNondetInt("b")
 	vAssume(a > -vhInputBound && a < vhInputBound && b > -vhInputBound && b < vhInputBound)
 	schemes := vhChunks[name]
-	if vhScheme >= len(schemes) || len(schemes[vhScheme]) == 0 {
-		return // no such cut for this program
+	var chunks []string
+	if vhScheme >= 0 {
+		if vhScheme >= len(schemes) || len(schemes[vhScheme]) == 0 {
+			return // no such cut for this program
+		}
+		chunks = schemes[vhScheme]
 	}
-	chunks := schemes[vhScheme]
 	var whole, pieces []int
 	var buf1, buf2 bytes.Buffer
 	i1 := vhEvalHost(&buf1, &whole, a, b)
@@ -495,6 +498,13 @@ func vh_E2E_chunks() {
 	_, err1 := i1.Eval(vhPrograms[name])
 	i2 := vhEvalHost(&buf2, &pieces, a, b)
 	var err2 error
+	if vhScheme < 0 {
+		// the other entry point: Compile, then Execute
+		var prog *Program
+		if prog, err2 = i2.Compile(vhPrograms[name]); err2 == nil {
+			_, err2 = i2.Execute(prog)
+		}
+	}
 	for k, c := range chunks {
 		vhCurKey = name + "#" + itoa(vhScheme) + "#" + itoa(k)
 		if _, err2 = i2.Eval(c); err2 != nil {
